@@ -97,6 +97,39 @@ def _job(args):
     return res
 
 
+def _hardlink_job(args):
+    """In-scope files that have a second name (hard link) outside the scope: the other name belongs to a file "elsewhere / with another
+    extension" and keeps its content. With the temp directory on the same file system or on another one."""
+    work, other_fs, structured, check = args
+    root = os.path.join(work, "hl")
+    proj = os.path.join(root, "proj")
+    src = os.path.join(proj, "src")
+    for d in (os.path.join(src, "net"), os.path.join(proj, "docs"), os.path.join(root, "outside")):
+        os.makedirs(d)
+    cli.write_tree(src, {"h.rs": STMT, "net/h2.rs": STMT, "plain.rs": STMT})
+    os.link(os.path.join(src, "h.rs"), os.path.join(root, "outside", "example.txt"))      # outside the project
+    os.link(os.path.join(src, "h.rs"), os.path.join(proj, "docs", "h_example.rs"))        # right extension, outside source_dir
+    os.link(os.path.join(src, "net", "h2.rs"), os.path.join(src, "net", "h2.rs.orig"))    # below source_dir, other extension
+    with open(os.path.join(proj, "Breadlog.yaml"), "w") as f:
+        f.write(cli.config_yaml("./src", macros=[("log", "info")], structured=structured))
+    tmp = os.path.join(work, "tmp")
+    if other_fs:
+        import tempfile
+        tmp = tempfile.mkdtemp(prefix="verif-c15-", dir="/var/tmp")
+    else:
+        os.makedirs(tmp)
+    same_dev = os.stat(tmp).st_dev == os.stat(src).st_dev
+    # (type, mode, size, content only: replacing one name of a file changes the link count of the others, which is not a modification of them)
+    before = cli.snapshot(root, with_meta=False)
+    r = cli.run_breadlog(os.path.join(proj, "Breadlog.yaml"), check=check, cwd=proj, tmpdir=tmp, timeout=30)
+    after = cli.snapshot(root, with_meta=False)
+    left = sorted(os.listdir(tmp))
+    shutil.rmtree(tmp, ignore_errors=True)
+    changed = sorted(k for k, a, b in cli.snapshot_diff(before, after) if not ((a or b)[0] == "d" and a is not None and b is not None))
+    shutil.rmtree(work, ignore_errors=True)
+    return other_fs, same_dev, structured, check, r.exit, r.panicked, changed, left
+
+
 def _symlink_job(args):
     """The configuration is reached through a symlinked directory and source_dir climbs out of it with `..`: resolution must follow
     the file system (the parent of the link's target), not fold `..` textually against the path the user typed."""
@@ -197,6 +230,32 @@ def run(tier, v):
                     v.violation("%s:src=%s:cfg=%s:cwd=%s" % (b, "abs" if sf.startswith("ABS") else "rel", cf, cw) if "scope" not in b else "%s:ext=%s" % (b, en),
                                 {"entries": list(subset), "extensions": en, "source_dir": sf, "config_path": cf, "cwd": cw, "mode": "check" if check else "edit",
                                  "exit": ex, "expected_in_scope": want, "changed": changed, "reported": reported, "stdout": out.decode("utf-8", "replace")})
+    # hard links: a second, out-of-scope name of an in-scope file
+    hjobs = []
+    for other_fs, structured, check in itertools.product((False, True), (False, True), (True, False)):
+        w = os.path.join(base, "h%d" % len(hjobs))
+        os.makedirs(w)
+        hjobs.append((w, other_fs, structured, check))
+    with multiprocessing.Pool(NCPU) as pool:
+        for other_fs, same_dev, structured, check, ex_, pan_, changed, left in pool.map(_hardlink_job, hjobs):
+            v.count()
+            v.distinct(("hardlinks", other_fs, structured, check))
+            allowed = {"proj/src/h.rs", "proj/src/net/h2.rs", "proj/src/plain.rs", "proj/Breadlog.lock"}
+            bad = []
+            if pan_:
+                bad.append("abnormal-termination")
+            if check and changed:
+                bad.append("check-changed-something")
+            if [c for c in changed if c not in allowed]:
+                bad.append("out-of-scope-name-of-a-hard-linked-file-modified")
+            if left:
+                bad.append("temp-file-left")
+            for b in bad:
+                v.violation("hard-links:%s:%s" % (b, "tmpdir-on-other-fs" if other_fs and not same_dev else "tmpdir-on-same-fs"),
+                            {"tmpdir_on_other_file_system": other_fs and not same_dev, "structured": structured, "mode": "check" if check else "edit", "exit": ex_,
+                             "changed": changed, "left_in_tmpdir": left})
+    v.subspace("in-scope files with a second (hard-linked) name outside the project / outside source_dir / with another extension x TMPDIR on {the same, "
+               "another} file system x style x mode", len(hjobs))
     # configuration reached through a symlinked directory
     sjobs = []
     for sd, cf, cw, check in itertools.product(["../src", "./../src", "../src/"], CFG_FORMS, ["ws", "root", "unrelated"], (True, False)):
